@@ -117,12 +117,18 @@ EmitProbe ==
 \* ---------------------------------------------------------------- C22: commands
 \* Command arguments are TLA+ strings here (TLC cannot look inside them and does not have to: the
 \* property is about the reply bytes); the harness logs the bytes it actually sent.
-Evil == {"\r\n", "\r", "\n", "x\r\ny", "\r\n+OK", "\r\n\r\n", "\n\r", "a\nb", "a\rb", "\r\n$-1\r\n"}
+\* Texts put into commands: CR / LF bearing ones (they split line-framed replies) and multi-byte UTF-8 ones
+\* (2-, 3- and 4-byte characters: a length counted in characters instead of bytes mis-frames a bulk reply).
+\* NOTE the non-ASCII literals need a JVM reading / printing UTF-8 (the recipe passes -Dfile.encoding=UTF-8 and
+\* refuses to run if the scripts arrive without non-ASCII text).
+Evil == {"\r\n", "\r", "\n", "x\r\ny", "\r\n+OK", "\r\n\r\n", "\n\r", "a\nb", "a\rb", "\r\n$-1\r\n",
+         "é", "€", "😀", "grüß €😀 dich", "é\r\n€"}
 Q(pre, e, post) == pre \o e \o post
 \* query texts with the text e in one syntactic position each
 Queries(e) == {
     e, Q("RETURN 1", e, ""), Q("", e, "RETURN 1"), Q("RETURN", e, "1"),
     Q("RETURN '", e, "'"), Q("RETURN \"", e, "\""), Q("RETURN '", e, ""), Q("RETURN 'a' + '", e, "' + 1"),
+    Q("RETURN '", e, "' AS v, 1 AS w"), ("RETURN 'a" \o e \o "b' + '" \o e \o "'"), ("RETURN toUpper('" \o e \o "'), ['" \o e \o "', 1]"),
     Q("RETURN 1 AS `", e, "`"), Q("RETURN `", e, "`"), Q("RETURN x", e, ""), Q("RETURN $", e, ""), Q("RETURN $`", e, "`"),
     Q("RETURN nosuch", e, "(1)"), Q("RETURN nosuch('", e, "')"), Q("RETURN toInteger('", e, "')"),
     Q("RETURN date('", e, "')"), Q("RETURN datetime('", e, "')"), Q("RETURN duration('", e, "')"),
@@ -167,7 +173,9 @@ SweepTexts == {"MATCH (n:L) WHERE n.p = 'v' RETURN n.p AS `c`", "CREATE (n:L {p:
 SweepScripts(u) ==
     {<<[op |-> "Sweep", args |-> <<"GRAPH.QUERY", "default", q>>, arg |-> 3, evil |-> e]>> : q \in SweepTexts, e \in {"\r\n", "\n", "\r"}}
     \cup {<<[op |-> "Sweep", args |-> <<"GRAPH.QUERY", "default", "RETURN 1">>, arg |-> k, evil |-> e]>> : k \in 1..2, e \in {"\r\n", "\n"}}
-    \cup {<<[op |-> "Sweep", args |-> <<"ECHO", "hello">>, arg |-> k, evil |-> "\r\n"]>> : k \in 1..2}
+    \cup {<<[op |-> "Sweep", args |-> <<"ECHO", "hello">>, arg |-> k, evil |-> e]>> : k \in 1..2, e \in {"\r\n", "é€😀"}}
+    \cup {<<[op |-> "Sweep", args |-> <<"PING", "hello">>, arg |-> 2, evil |-> "€"]>>,
+          <<[op |-> "Sweep", args |-> <<"GRAPH.QUERY", "default", "RETURN 'v' AS c, ['w'] AS d">>, arg |-> 3, evil |-> "é€😀"]>>}
 
 CSpec == RInit /\ cur \in CmdScripts(0) \cup SweepScripts(0) /\ [][FALSE]_pvars
 EmitCur == PrintT(<<"SCRIPT", ToJson(cur)>>)
